@@ -163,7 +163,10 @@ def base_ok(data):
     return {"ops": ops, "ref": ref, "value": out[1], "log": out[2], "framed": framed}
 
 
-def check(data, mode, kw, loader):
+SHARED = {"data": None, "ops": None, "history": []}
+
+
+def check(data, mode, kw, loader, shared_history=None):
     """(Failure|None, klass)"""
     from fickling.analysis import check_safety
     from fickling.fickle import Pickled
@@ -176,8 +179,28 @@ def check(data, mode, kw, loader):
     case = {"hex": data.hex(), "mode": mode, "kw": kw, "loader": loader, "arg2": repr(ARG2[0])}
     if mode.endswith("_qualified") and not any(o[0].name == "PROTO" and o[1] >= 4 for o in base["ops"]):
         return None, "qualified-name-needs-protocol-4"
+    # every other mode builds its Pickled from one caller-owned opcode list per base, reused from
+    # mode to mode (the constructor's documented input is an iterable of opcodes; what a Pickled
+    # does to its own sequence must not reach the caller's list or its siblings)
+    shared = MODES.index((mode, kw)) % 2 == 1 if (mode, kw) in MODES else False
+    if shared_history is not None:
+        shared = True
     try:
-        p = Pickled.load(data)
+        if shared:
+            if SHARED["data"] != data:
+                SHARED.update(data=data, ops=list(Pickled.load(data)), history=[])
+                for m0, k0 in shared_history or ():
+                    q = Pickled(SHARED["ops"])
+                    try:
+                        apply_mode(q, m0, k0)
+                    except Exception:  # noqa: BLE001
+                        pass
+                    SHARED["history"].append([m0, k0])
+            case["shared_history"] = [list(h) for h in SHARED["history"]]
+            SHARED["history"].append([mode, kw])
+            p = Pickled(SHARED["ops"])
+        else:
+            p = Pickled.load(data)
         apply_mode(p, mode, kw)
         out = p.dumps()
     except Exception:  # noqa: BLE001
@@ -305,7 +328,9 @@ def replay(case):
 
     ARG2[0] = _ast.literal_eval(case.get("arg2", "7"))
     try:
-        return check(bytes.fromhex(case["hex"]), case["mode"], case["kw"], case["loader"])[0]
+        SHARED.update(data=None, ops=None, history=[])
+        return check(bytes.fromhex(case["hex"]), case["mode"], case["kw"], case["loader"],
+                     case.get("shared_history"))[0]
     finally:
         ARG2[0] = 7
 
